@@ -418,16 +418,48 @@ def rule_c13_r4(model: Model) -> RuleResult:
                         gcfg = cfg_of(model, g)
                         gnz = Normalizer(model, g, gcfg, param_map={p_: f'${p_}' for p_ in g.params})
                         buf = g.params[1] if len(g.params) > 1 else None
-                        forms = {gnz.expr(x.ast.value, x) for x in gcfg.live_nodes() if x.kind == 'return' and x.ast is not None and x.ast.value is not None}
-                        want_all = any(re.match(r'^pane\.annotations\.Condition\.all\(\*\$%s\)\._converter\(\$%s, handlers=\$handlers\)$' % (buf, g.params[0]), x) for x in forms)
-                        want_one = any(re.match(r'^\$%s\[0\]\._converter\(\$%s, handlers=\$handlers\)$' % (buf, g.params[0]), x) for x in forms)
-                        glits = {gnz.literal(x.ast, x)[0] for x in gcfg.nodes if x.kind == 'cond'}
-                        ident = [x for x in gcfg.live_nodes() if x.kind == 'return' and x.ast is not None and x.ast.value is not None
-                                 and gnz.expr(x.ast.value, x) == f'${g.params[0]}']
-                        ident_ok = all(any(a.kind == 'cond' and gnz.literal(a.ast, a)[0] == f'TRUTHY(${buf})'
-                                           and a.edge('F' if gnz.literal(a.ast, a)[1] else 'T')
-                                           and gcfg.edge_dominates(a, 'F' if gnz.literal(a.ast, a)[1] else 'T', x) for a in gcfg.nodes) for x in ident)
-                        helper_ok = bool(want_all and want_one and ident_ok and any(re.match(r'^1 < len\(', x) for x in glits) and len(forms) == 3)
+                        # which statements of the helper run for a buffer of 0, 1, 2, 3+ conditions (paths followed with the set of
+                        # sizes that satisfy every size test on them)
+                        sizes_at: t.Dict[int, t.Set[int]] = {}
+                        todo_: t.List[t.Tuple[Node, t.FrozenSet[int]]] = [(gcfg.entry, frozenset({0, 1, 2, 3}))]
+                        seen_: t.Set[t.Tuple[int, t.FrozenSet[int]]] = set()
+                        while todo_:
+                            x_, sz_ = todo_.pop()
+                            if (x_.id, sz_) in seen_ or not sz_:
+                                continue
+                            seen_.add((x_.id, sz_))
+                            sizes_at.setdefault(x_.id, set()).update(sz_)
+                            lit_ = None
+                            if x_.kind == 'cond' and x_.ast is not None:
+                                tx_, ps_ = gnz.literal(x_.ast, x_)
+                                tx2_ = re.sub(r'^TRUTHY\(len\((.*)\)\)$', r'TRUTHY(\1)', tx_)
+                                if _eval_len_literal(tx2_, 1) is not None:
+                                    lit_ = (tx2_, ps_)
+                            for (lb_, y_) in x_.succ:
+                                s2_ = sz_
+                                if lit_ is not None and lb_ in ('T', 'F'):
+                                    want_ = (lb_ == 'T') == lit_[1]
+                                    s2_ = frozenset(n_ for n_ in sz_ if _eval_len_literal(lit_[0], n_) == want_)
+                                todo_.append((y_, s2_))
+                        sz_all: t.Set[int] = set()
+                        sz_one: t.Set[int] = set()
+                        sz_ident: t.Set[int] = set()
+                        applied = True
+                        for x_ in gcfg.live_nodes():
+                            txt_ = unparse(x_.ast) if x_.ast is not None else ''
+                            if x_.kind in ('stmt', 'return') and re.search(r'Condition\.all\(\*%s\)' % re.escape(buf or '?'), txt_):
+                                sz_all |= sizes_at.get(x_.id, set())
+                            if x_.kind in ('stmt', 'return') and re.search(r'\b%s\[0\]' % re.escape(buf or '?'), txt_):
+                                sz_one |= sizes_at.get(x_.id, set())
+                            if x_.kind == 'return' and x_.ast is not None and x_.ast.value is not None:
+                                form_ = gnz.expr(x_.ast.value, x_)
+                                if form_ == f'${g.params[0]}':
+                                    sz_ident |= sizes_at.get(x_.id, set())
+                                elif '._converter(' not in form_ or f'${g.params[0]}' not in form_ or 'handlers=$handlers' not in form_.replace('handlers=$' + (g.params[2] if len(g.params) > 2 else 'handlers'), 'handlers=$handlers'):
+                                    applied = False
+                        want_all = {2, 3} <= sz_all and 0 not in sz_all
+                        want_one = (1 in sz_one or 1 in sz_all) and 0 not in sz_one
+                        helper_ok = bool(want_all and want_one and applied and sz_ident <= {0})
                         has_all = has_all or want_all
                         has_one = has_one or want_one
                         flush_nodes.append(n)
